@@ -15,6 +15,10 @@
 //! PRINT USING, LPRINT, INPUT / LINE INPUT with arbitrary bytes, READ with arbitrary DATA), (c'') / (d') non-scalar
 //! values (records, whole arrays, fixed-length strings, record fields, undefined-function calls) in every
 //! argument position of every built-in and every expression position of the statement repertoire.
+//! (e) jumps into FOR bodies and SELECT CASE blocks (`jump-into-block`): GOTO, GOSUB, ON ERROR GOTO, RESUME label,
+//! RETURN label x a label inside FOR / FOR STEP / CASE / CASE ELSE and two-level nests x the jump before / behind /
+//! in a sibling block / in the enclosing block / inside / leaving x main module / SUB: the checker refuses the static
+//! kinds (d540f83), the VM answers NEXT without FOR / Illegal function call for the dynamic ones (18f92cd).
 //! A sample of the accepted programs is also given to the proved checker `wfCheck` (Lean driver), the
 //! hypothesis of theorem `wf_no_vm_failure`; observed error codes are compared with the extracted table.
 
@@ -953,6 +957,92 @@ fn statement_inputs(rng: &mut Rng, thorough: bool, out: &mut Vec<Input>) {
     }
 }
 
+
+// ---- jumps into FOR bodies and SELECT CASE blocks -------------------------------------------------------------
+
+/// Family `jump-into-block`: every kind of jump (GOTO, GOSUB, ON ERROR GOTO with a failing statement, RESUME label,
+/// RETURN label) x a target label inside a FOR body (with / without STEP), a CASE / CASE ELSE block, or two of them
+/// nested x the place of the jump (before the block, behind it, in a sibling block, in the enclosing block, inside the
+/// block itself) x main module / SUB.  The FOR state lives in a register frame and the SELECT selector on the value
+/// stack, both pushed by the header: entering the body without the header must be refused by the checker (static kinds)
+/// or answered with a BASIC-level error; the oracle is that of every C08 input.
+fn jump_into_block_inputs(out: &mut Vec<Input>) {
+    fn wrap(kind: &str, var: &str, inner: &str) -> String {
+        match kind {
+            "for" => format!("FOR {}% = 1 TO 2\n{}NEXT\n", var, inner),
+            "forstep" => format!("FOR {}% = 1 TO 3 STEP 2\n{}NEXT\n", var, inner),
+            "case" => format!("SELECT CASE K%\nCASE 1\n{}CASE ELSE\nPRINT \"e\"\nEND SELECT\n", inner),
+            "caseelse" => format!("SELECT CASE K%\nCASE 5\nPRINT \"c\"\nCASE ELSE\n{}END SELECT\n", inner),
+            _ => unreachable!(),
+        }
+    }
+    let blocks = ["for", "forstep", "case", "caseelse"];
+    // the nest around the label, outermost first
+    let mut nests: Vec<Vec<&str>> = blocks.iter().map(|b| vec![*b]).collect();
+    for (a, b) in [("for", "for"), ("for", "case"), ("case", "for"), ("caseelse", "forstep"), ("case", "caseelse"), ("forstep", "case")] {
+        nests.push(vec![a, b]);
+    }
+    let vars = ["I", "J"];
+    // (kind, the jump, what goes behind the program)
+    let kinds: [(&str, &str, &str); 7] = [
+        ("goto", "GOTO L\n", ""),
+        ("gosub", "GOSUB L\nPRINT \"back\"\n", ""),
+        ("gosub-return-behind", "GOSUB L\nPRINT \"back\"\n", "RETURN\n"),
+        ("on-error", "ON ERROR GOTO L\nY% = 1 / Z%\nPRINT \"next\"\n", ""),
+        ("on-error-resume-next", "ON ERROR GOTO L\nY% = 1 / Z%\nPRINT \"next\"\n", "RESUME NEXT\n"),
+        ("resume-label", "ON ERROR GOTO H\nY% = 1 / Z%\nPRINT \"next\"\n", "END\nH:\nRESUME L\n"),
+        ("return-label", "GOSUB R\nPRINT \"back\"\n", "END\nR:\nRETURN L\n"),
+    ];
+    for nest in &nests {
+        for (kind, jump, tail) in kinds {
+            // the label: executed at most a few times, whatever brings control here
+            let at_label = |extra: &str| format!("L:\nPRINT \"in\"; I%; J%\nC% = C% + 1\nIF C% > 4 THEN\nPRINT \"stop\"\nSYSTEM\nEND IF\n{}", extra);
+            let target = |extra: &str| {
+                let mut t = at_label(extra);
+                for (k, b) in nest.iter().enumerate().rev() {
+                    t = wrap(b, vars[k], &t);
+                }
+                t
+            };
+            let once = |j: &str| format!("IF D% = 0 THEN\nD% = 1\n{}END IF\n", j);
+            let mut layouts: Vec<(&str, String)> = vec![
+                ("before", format!("{}{}PRINT \"after\"\n", once(jump), target(""))),
+                ("behind", format!("{}{}PRINT \"after\"\n", target(""), once(jump))),
+                ("sibling", format!("{}{}PRINT \"after\"\n", wrap(nest[0], "S", &once(jump)), target(""))),
+                ("sibling-behind", format!("{}{}PRINT \"after\"\n", target(""), wrap(nest[0], "S", &once(jump)))),
+                ("inside", format!("{}PRINT \"after\"\n", target(&once(jump)))),
+            ];
+            if nest.len() == 2 {
+                // the jump in the enclosing block, the label one block further in
+                let inner = wrap(nest[1], vars[1], &at_label(""));
+                layouts.push(("enclosing", format!("{}PRINT \"after\"\n", wrap(nest[0], vars[0], &format!("{}{}", once(jump), inner)))));
+                layouts.push(("enclosing-behind", format!("{}PRINT \"after\"\n", wrap(nest[0], vars[0], &format!("{}{}", inner, once(jump))))));
+                // the jump one block further in than the label (leaves a block: always allowed)
+                let outer_label = format!("{}{}", at_label(""), wrap(nest[1], vars[1], &once(jump)));
+                layouts.push(("leaving", format!("{}PRINT \"after\"\n", wrap(nest[0], vars[0], &outer_label))));
+            }
+            for (layout, body) in layouts {
+                let family = format!("jump-into-block:{}", kind);
+                let main = format!("' {} {} {}\nK% = 1\n{}{}", kind, nest.join(">"), layout, body, tail);
+                out.push(Input { family: family.clone(), text: main, stdin: vec![] });
+                // the same inside a SUB (the handler of ON ERROR / RESUME is a label of the main module, END does not belong in a SUB)
+                if !tail.starts_with("END") && !kind.starts_with("on-error") {
+                    let body = body.replace("PRINT \"stop\"\nSYSTEM\n", "PRINT \"stop\"\nEXIT SUB\n");
+                    out.push(Input { family: family.clone(), text: format!("' {} {} {} in a SUB\nS\nPRINT \"main\"\nSUB S\nK% = 1\n{}{}END SUB\n", kind, nest.join(">"), layout, body, tail), stdin: vec![] });
+                }
+                // ON ERROR GOTO inside a SUB, the label in a block of the main module
+                if kind == "on-error" && layout == "before" {
+                    out.push(Input {
+                        family,
+                        text: format!("' {} {} from a SUB\nK% = 1\nIF D% = 0 THEN\nD% = 1\nS\nEND IF\n{}END\nSUB S\nON ERROR GOTO L\nY% = 1 / Z%\nPRINT \"next\"\nEND SUB\n", kind, nest.join(">"), target("")),
+                        stdin: vec![],
+                    });
+                }
+            }
+        }
+    }
+}
+
 // ---- shrinking -------------------------------------------------------------------------------------------
 
 fn sig_of(o: &Outcome) -> Option<String> {
@@ -1044,7 +1134,10 @@ fn main() {
          every element type, nested TYPEs, STRING * n, SHARED/STATIC, recursion, DEF SEG/PEEK/POKE/VARPTR/VARSEG on every kind of variable, file \
          statements, PRINT USING, LPRINT, INPUT / LINE INPUT with arbitrary bytes, READ with arbitrary DATA; about 120 statement templates with a scalar of every type and \
          every non-scalar kind in each expression position (PRINT items, assignment sides, operands, conditions, FOR bounds, CASE values, subscripts, DIM bounds, \
-         user SUB/FUNCTION arguments, INPUT/READ targets, file names and numbers). Oracle: the end is normal, budget, or a \
+         user SUB/FUNCTION arguments, INPUT/READ targets, file names and numbers); (e) jump-into-block: GOTO, GOSUB (RETURN inside / behind the block), \
+         ON ERROR GOTO (with / without RESUME NEXT), RESUME label, RETURN label x a label inside FOR, FOR STEP, CASE, CASE ELSE and six two-level nests x the \
+         jump before / behind / in a sibling block / in the enclosing block / inside the block / one block further in, main module and SUB; a GOTO / GOSUB \
+         that stays inside its block or leaves it must be accepted. Oracle: the end is normal, budget, or a \
          RuntimeError with a code and a position; never a panic, abort or hang. distinct = distinct accepted (program, input) pairs; rejected programs are trivial.",
     );
     let thorough = rep.is_thorough();
@@ -1096,6 +1189,7 @@ fn main() {
     nested_inputs(&mut inputs);
     odd_builtin_inputs(&accepted, thorough, &mut inputs);
     odd_statement_inputs(&mut inputs);
+    jump_into_block_inputs(&mut inputs);
     // the probes that did not end in a verdict are re-run as ordinary inputs
     for ((_, _, inp), r) in probes.iter().zip(probe_res.iter()) {
         if !matches!(r, Res::Done(Outcome::Rejected(_)) | Res::Done(Outcome::Ok) | Res::Done(Outcome::Budget) | Res::Done(Outcome::Err { .. })) {
@@ -1124,13 +1218,27 @@ fn main() {
     let mut accepted_programs: Vec<usize> = vec![];
     for (k, (inp, r)) in inputs.iter().zip(results.iter()).enumerate() {
         let fam = inp.family.split(':').next().unwrap_or("").to_string();
-        let fam_full = if inp.family.starts_with("stmt:") { inp.family.clone() } else { fam.clone() };
+        let fam_full = if inp.family.starts_with("stmt:") || inp.family.starts_with("jump-into-block:") { inp.family.clone() } else { fam.clone() };
         match r {
             Res::Done(Outcome::Rejected(m)) => {
                 rep.case(None);
                 rep.bump(&format!("{}.rejected", fam_full));
                 if m.starts_with("front-end panic") {
                     rep.bump(&format!("{}.rejected-by-front-end-panic(C07)", fam_full));
+                }
+                // a jump that stays inside its block or leaves it is legal: the checker's rule is about entering
+                if matches!(inp.family.as_str(), "jump-into-block:goto" | "jump-into-block:gosub" | "jump-into-block:gosub-return-behind") {
+                    let head = inp.text.lines().next().unwrap_or("");
+                    if head.contains(" inside") || head.contains(" leaving") {
+                        rep.fail(Failure {
+                            kind: Kind::ImplVsProperty,
+                            signature: "jump-into-block:legal-jump-rejected".into(),
+                            input: inp.text.clone(),
+                            implementation: format!("rejected: {}", m),
+                            expected: "a GOTO / GOSUB whose label is in the same FOR body / SELECT CASE block, or in an enclosing one, is accepted".into(),
+                            note: format!("family {}", inp.family),
+                        });
+                    }
                 }
                 if let Some(f) = dump.as_mut() {
                     if inp.family.starts_with("stmt:") {
@@ -1161,6 +1269,13 @@ fn main() {
                     _ => unreachable!(),
                 })
                 .unwrap();
+                // the jumps whose origin is only known at run time (the failing statement, the pending GOSUB) are kept
+                // apart from those the checker can decide
+                let s = match inp.family.strip_prefix("jump-into-block:") {
+                    Some(kind) if kind == "resume-label" || kind == "return-label" => format!("{}|jump-into-block({})", s, kind),
+                    Some(_) => format!("{}|jump-into-block", s),
+                    None => s,
+                };
                 by_sig.entry(s).or_default().push(k);
             }
             Res::Hang => {
@@ -1183,7 +1298,7 @@ fn main() {
             let inp = &inputs[*k];
             let (text, stdin, implementation) = match &results[*k] {
                 Res::Done(Outcome::Panic { site, msg }) => {
-                    let (t, s) = shrink(&inp.text, &inp.stdin, sig);
+                    let (t, s) = shrink(&inp.text, &inp.stdin, sig.split("|jump-into-block").next().unwrap_or(sig));
                     (t, s, format!("panic at {}: {}", site, msg.lines().next().unwrap_or("")))
                 }
                 Res::Done(Outcome::Err { variant, code, positions, row, col }) => {
@@ -1300,7 +1415,12 @@ fn main() {
             if *f != "t" {
                 rep.fail(Failure {
                     kind: Kind::ImplVsProperty,
-                    signature: format!("wf:{}", names[i]),
+                    // a RETURN label / RESUME label into a FOR body or a CASE block is accepted (where it comes from is
+                    // only known at run time) and its code has no stack certificate: kept apart from every other program
+                    signature: match t.lines().next().and_then(|l| l.strip_prefix("' ")).and_then(|l| l.split(' ').next()) {
+                        Some(kind @ ("return-label" | "resume-label")) => format!("wf:{}|jump-into-block({})", names[i], kind),
+                        _ => format!("wf:{}", names[i]),
+                    },
                     input: t.clone(),
                     implementation: a.chars().take(120).collect(),
                     expected: format!("{} holds for the generated code of an accepted program", names[i]),
